@@ -82,7 +82,16 @@ static bool tokens_within(const bytes &got, const bytes &want) {
   }
   return true;
 }
-static KVs table_content(int i) {
+// Tables 0 and 5 have a second table that can take their place under the same name while the name is not loaded
+// (op "mkfile n 1"): the replacement of table 0 has two entries (the reader filter rejects it), that of table 5 has four.
+static bool has_variant(int i) { return i == 0 || i == 5; }
+static KVs table_content(int i, int variant = 0) {
+  if (variant && has_variant(i)) {
+    KVs kv;
+    if (i == 0) kv = {{bytes("a"), token(i, 10)}, {bytes("q"), token(i, 11)}};
+    else kv = {{bytes("m"), token(i, 10)}, {bytes("n"), token(i, 11)}, {bytes("o"), token(i, 12)}, {bytes("p"), token(i, 13)}};
+    return kv;
+  }
   static const char *keys[NTABLES][5] = {{"a", "b", "c", "d", nullptr}, {"c", "d", "e", "f", nullptr}, {"a", "f", "g", nullptr, nullptr},
                                          {nullptr, nullptr, nullptr, nullptr, nullptr}, {"", "b", "z", nullptr, nullptr}, {"m", "n", nullptr, nullptr, nullptr}};
   KVs kv;
@@ -103,10 +112,10 @@ static bool fn_filter1(const char *f, void *) {
 static bool fn_filter2(const char *f, void *) { return !strstr(f, "t1.") && !strstr(f, "t4."); }
 // reader filter: tables with at least 3 entries
 static bool rd_filter(struct mtbl_reader *r, void *) { return mtbl_metadata_count_entries(mtbl_reader_metadata(r)) >= 3; }
-static bool passes(int table, int fnf, int rdf) {
+static bool passes(int table, int fnf, int rdf, int variant = 0) {
   if (fnf == 1 && table % 2) return false;
   if (fnf == 2 && (table == 1 || table == 4)) return false;
-  if (rdf && table_content(table).size() < 3) return false;
+  if (rdf && table_content(table, variant).size() < 3) return false;
   return true;
 }
 
@@ -129,6 +138,35 @@ static Case gen_case() {
   Case c;
   c.initial = gen_names();
   c.interval0 = one_of<long>({0, 0, 2, 5, -1});
+  if (chance(12)) {
+    // Directed shape (the rest stays random): a dup'ed handle with filters reads, then lies idle while a table name
+    // leaves the set and comes back through other handles' reloads, the file possibly replaced meanwhile; then it reads.
+    long x = chance(50) ? 0 : 5;
+    auto mk = [](const char *k, std::vector<long> a) {
+      FOp p;
+      p.k = k;
+      p.a = a;
+      return p;
+    };
+    auto with = [&](bool in) {
+      std::vector<long> v = {pick(0, 1)};
+      for (long y : gen_names())
+        if (y != x) v.push_back(y);
+      if (in) v.insert(v.begin() + pick(1, (int)v.size()), x);
+      return v;
+    };
+    c.ops.push_back(mk("rewrite", with(true)));
+    c.ops.push_back(mk("reloadnow", {0}));
+    c.ops.push_back(mk("dup", {0, one_of<long>({0, 2, -1}), pick(0, 1) ? 0 : 1, chance(75), 0}));
+    c.ops.push_back(mk("read", {1, chance(25)}));
+    if (chance(70)) c.ops.push_back(mk("rmfile", {x}));
+    c.ops.push_back(mk("rewrite", with(chance(20))));
+    c.ops.push_back(mk(chance(70) ? "reloadnow" : "read", {0, 0}));
+    if (chance(80)) c.ops.push_back(mk("mkfile", {x, chance(70)}));
+    c.ops.push_back(mk("rewrite", with(true)));
+    c.ops.push_back(mk(chance(70) ? "reloadnow" : "read", {0, 0}));
+    c.ops.push_back(mk("read", {chance(80) ? 1 : 0, chance(25)}));
+  }
   int n = pick(1, 6 + current_size() / 3);
   for (int i = 0; i < n; i++) {
     FOp p;
@@ -157,7 +195,11 @@ static Case gen_case() {
       case 7: p.k = "close"; p.a = {pick(0, 3)}; break;
       case 8: p.k = "destroy"; p.a = {pick(0, 3)}; break;
       case 9: p.k = "read"; p.a = {pick(0, 3), chance(25)}; break;
-      default: p.k = chance(55) ? "rmfile" : "mkfile"; p.a = {pick(0, NTABLES - 1)}; break;
+      default:
+        p.k = chance(55) ? "rmfile" : "mkfile";
+        p.a = {chance(40) ? (chance(50) ? 0 : 5) : pick(0, NTABLES - 1)};
+        if (p.k == "mkfile") p.a.push_back(chance(40));  // 1: a different table comes back under the name
+        break;
     }
     c.ops.push_back(p);
   }
@@ -196,6 +238,16 @@ static Result run_case(const Case &c) {
       close(fd);
       rename(outp.c_str(), (dir + "/" + name_of(i)).c_str());
     }
+    for (int i = 0; i < NTABLES; i++)
+      if (has_variant(i)) {
+        WConfig wc;
+        wc.comp = (i + 1) % 3;
+        wc.by_path = true;
+        std::string outp;
+        int fd = write_table(wc, table_content(i, 1), nullptr, &outp);
+        close(fd);
+        rename(outp.c_str(), (dir + "/.v1-" + name_of(i)).c_str());
+      }
     write_file(dir + "/" + name_of(6), std::string(800, 'J'));
     mkdir((dir + "-alt").c_str(), 0700);
     for (int i = 0; i <= 6; i++)
@@ -257,28 +309,44 @@ static Result run_case(const Case &c) {
     // A reload at a reload point is effective only if the setfile changed since it was last noticed.  At a point where a
     // reload is REQUIRED every candidate takes the reload branch; where it is merely PERMITTED both branches are kept.
     // Observations filter the set; an empty set is the violation.  While any iterator is open nothing may reload.
-    typedef std::pair<int, int> Cand;
+    // A third component records, for the tables that have a replacement, which of the two was opened when the name was
+    // loaded: a reload keeps the reader of a name that stays loaded (same spelling), so a name that was replaced behind
+    // the library's back may show either table until a reload has seen it absent; both are kept as candidates.
+    struct Cand {
+      int first, second;
+      unsigned vm;
+      Cand(int a, int b, unsigned v = 0) : first(a), second(b), vm(v) {}
+      bool operator<(const Cand &o) const { return std::tie(first, second, vm) < std::tie(o.first, o.second, o.vm); }
+      bool operator!=(const Cand &o) const { return first != o.first || second != o.second || vm != o.vm; }
+    };
     std::set<Cand> cands = {Cand(-1, -1)};
     bool deferred_now = false;  // reload_now was called while iterators were open
     long t_lastpoint = -1;      // second of the last op at which a reload could have happened (no iterators open)
     int total_open = 0;
-    bool saw_change_reload_read_other = false, iter_across_reloadnow = false, files_changed = false;
+    bool saw_change_reload_read_other = false, iter_across_reloadnow = false, files_changed = false, files_replaced = false;
     int last_reload_handle = -1;
     bool forced_reload_changed_something = false;
     // world epochs
     struct Snap {
       int version;
-      unsigned exist;  // bit n: table file n exists
+      unsigned exist;    // bit n: table file n exists
+      unsigned variant;  // bit n: the file of that name is the replacement table
     };
-    unsigned exist_now = (1u << NTABLES) - 1;
-    std::vector<Snap> snaps = {Snap{0, exist_now}};
-    auto new_epoch = [&]() { snaps.push_back(Snap{(int)versions.size() - 1, exist_now}); };
+    unsigned exist_now = (1u << NTABLES) - 1, variant_now = 0;
+    std::vector<Snap> snaps = {Snap{0, exist_now, 0}};
+    auto new_epoch = [&]() { snaps.push_back(Snap{(int)versions.size() - 1, exist_now, variant_now}); };
+    auto loaded_in = [&](int vn, int el, int n) {
+      if (vn < 0 || !((snaps[(size_t)el].exist >> n) & 1)) return false;
+      for (long x : versions[(size_t)vn])
+        if (x == n) return true;
+      return false;
+    };
     auto content = [&](const Cand &cd, const Handle &h) {
       std::map<bytes, bytes, BLess> m;
       if (cd.first >= 0)
         for (long n : versions[(size_t)cd.first])
-          if (n < NTABLES && ((snaps[(size_t)cd.second].exist >> n) & 1) && passes((int)n, h.fnf, h.rdf))
-            for (auto &kv : table_content((int)n)) m[kv.first] += kv.second;
+          if (n < NTABLES && ((snaps[(size_t)cd.second].exist >> n) & 1) && passes((int)n, h.fnf, h.rdf, (int)((cd.vm >> n) & 1)))
+            for (auto &kv : table_content((int)n, (int)((cd.vm >> n) & 1))) m[kv.first] += kv.second;
       RefTable t;
       for (auto &kv : m) t.e.push_back(kv);
       return t;
@@ -310,10 +378,25 @@ static Result run_case(const Case &c) {
       std::set<Cand> next;
       bool changed = false;
       for (auto &cd : cands) {
-        Cand re = cd.first != curv ? Cand(curv, cure) : cd;  // an effective reload only when the setfile changed
-        if (re != cd) changed = true;
-        next.insert(re);
+        if (cd.first == curv) {  // an effective reload only when the setfile changed
+          next.insert(cd);
+          continue;
+        }
+        changed = true;
         if (!must) next.insert(cd);
+        // names loaded afresh open the file that is there now; names that stay loaded may keep the reader they have
+        std::vector<unsigned> vms = {0};
+        for (int n = 0; n < NTABLES; n++) {
+          if (!has_variant(n) || !loaded_in(curv, cure, n)) continue;
+          unsigned nowbit = (snaps[(size_t)cure].variant >> n) & 1, oldbit = (cd.vm >> n) & 1;
+          bool either = loaded_in(cd.first, cd.second, n) && oldbit != nowbit;
+          size_t sz = vms.size();
+          for (size_t i = 0; i < sz; i++) {
+            if (either) vms.push_back(vms[i] | (oldbit << n));
+            vms[i] |= nowbit << n;
+          }
+        }
+        for (unsigned vm : vms) next.insert(Cand(curv, cure, vm));
       }
       cands = next;
       if (must) {
@@ -327,7 +410,7 @@ static Result run_case(const Case &c) {
     };
     auto describe = [&](const std::set<Cand> &cs) {
       std::string d;
-      for (auto &cd : cs) d += "(version " + std::to_string(cd.first) + " loaded at epoch " + std::to_string(cd.second) + ") ";
+      for (auto &cd : cs) d += "(version " + std::to_string(cd.first) + " loaded at epoch " + std::to_string(cd.second) + (cd.vm ? " replacements " + std::to_string(cd.vm) : "") + ") ";
       return d;
     };
 
@@ -340,15 +423,21 @@ static Result run_case(const Case &c) {
         new_epoch();
       } else if (op.k == "rmfile" || op.k == "mkfile") {
         int n = (int)(A(0) % NTABLES);
-        std::string p = dir + "/" + name_of(n), hidden = dir + "/.hidden-" + name_of(n);
+        std::string p = dir + "/" + name_of(n);
+        auto store = [&](unsigned v) { return dir + (v ? "/.v1-" : "/.hidden-") + name_of(n); };
         bool ex = (exist_now >> n) & 1;
         if (op.k == "rmfile" && ex) {
-          rename(p.c_str(), hidden.c_str());  // the name disappears; a reader that has the table mapped keeps it
+          rename(p.c_str(), store((variant_now >> n) & 1).c_str());  // the name disappears; a reader that has the table mapped keeps it
           exist_now &= ~(1u << n);
           new_epoch();
           files_changed = true;
         } else if (op.k == "mkfile" && !ex) {
-          rename(hidden.c_str(), p.c_str());  // same content comes back under the same name (tables are immutable)
+          // the same table comes back under the same name, or (second argument 1) the other table of that name does
+          if (A(1) % 2 == 1 && has_variant(n)) {
+            variant_now ^= 1u << n;
+            files_replaced = true;
+          }
+          rename(store((variant_now >> n) & 1).c_str(), p.c_str());
           exist_now |= 1u << n;
           new_epoch();
           files_changed = true;
@@ -509,6 +598,7 @@ static Result run_case(const Case &c) {
     if (iter_across_reloadnow) r.tag("iterator_open_across_reload_now");
     if (versions.size() > 1) r.tag("setfile_rewritten");
     if (files_changed) r.tag("table_file_removed_or_restored");
+    if (files_replaced) r.tag("table_file_replaced_by_a_different_table_while_absent");
     r.counters["setfile_versions"] = (long long)versions.size();
   });
 }
